@@ -44,7 +44,7 @@ MUTABLE = ("list", "dict", "solver", "wcnf")
 
 
 def is_mutable(t):
-    return t in ("solver", "wcnf") or (isinstance(t, tuple) and t[0] in ("list", "dict", "set"))
+    return t in ("solver", "wcnf", "zopt") or (isinstance(t, tuple) and t[0] in ("list", "dict", "set"))
 
 
 def unify(a, b):
@@ -63,7 +63,7 @@ def unify(a, b):
 
 # ------------------------------------------------------------------------------------------------ function table
 class Fn:
-    def __init__(self, name, coq, params, ret=None, cls=None, state=None, ret_union=False, fuel=False, pure=False, mutates=(), abstract=False):
+    def __init__(self, name, coq, params, ret=None, cls=None, state=None, ret_union=False, fuel=False, pure=False, mutates=(), abstract=False, returns_state=()):
         self.name, self.coq, self.params, self.ret, self.cls = name, coq, params, ret, cls
         self.state = state or []          # [(key, coqname, type)] read from self.epistemic_state
         self.ret_union = ret_union        # `return False, x` / `return v, x`  ->  (PFalse, x) / (PVal v, x)
@@ -72,10 +72,12 @@ class Fn:
         self.mutates = set(mutates)       # names of parameters the body mutates
         self.abstract = abstract          # an abstract method: a parameter of every generated function that calls it
         self.uses = []                    # abstract methods this function calls
+        self.returns_state = list(returns_state)   # parameters (solver objects) whose final state is returned with the result
 
 
 class Ctx:
     """translation of one function body"""
+    cond_class = "Conditional"
 
     def __init__(self, fn, table, consts):
         self.fn, self.table, self.consts = fn, table, consts
@@ -301,6 +303,11 @@ class X:
                 fail(x, "an operand that may raise after a short-circuit operator")
             binds += b
             parts.append(c)
+            if (c == "false" and op == "&&") or (c == "true" and op == "||"):
+                # statically decided (e.g. `deadline and ...` with deadline None): the remaining operands are never evaluated
+                if len(parts) == 1:
+                    return c, "bool", binds
+                break
         return "(" + (" %s " % op).join(parts) + ")", "bool", binds
 
     def e_IfExp(self, e, env):
@@ -323,6 +330,8 @@ class X:
                 return "(%s %s %s)" % (f, l, r), tl, bl + br
         if isinstance(tl, tuple) and tl == tr and tl == ("set", ("set", "int")) and isinstance(e.op, ast.BitAnd):
             return "(zsetset_inter %s %s)" % (l, r), tl, bl + br
+        if isinstance(tl, tuple) and tl == tr and tl == ("set", ("set", "cond")) and isinstance(e.op, ast.BitAnd):
+            return "(csetset_inter %s %s)" % (l, r), tl, bl + br
         fail(e, "binary operator on %r, %r" % (tl, tr))
 
     def e_Compare(self, e, env):
@@ -364,6 +373,13 @@ class X:
                 return "(%s <=? %s)%%Z" % (r, l), "bool", b
         if tl == "bool" and tr == "bool" and isinstance(op, ast.Eq):
             return "(Bool.eqb %s %s)" % (l, r), "bool", b
+        if tl == "bool" and tr == "bool" and isinstance(op, ast.NotEq):
+            return "(negb (Bool.eqb %s %s))" % (l, r), "bool", b
+        if tl == "form" and isinstance(R, ast.Constant) and R.value is False and isinstance(op, ast.Eq):
+            return "(FNot %s)" % l, "form", bl       # z3: `expr == False` is the negated expression
+        if tl == "cond" and isinstance(tr, tuple) and tr == ("set", "cond") and isinstance(op, (ast.In, ast.NotIn)):
+            c = "(cmem %s %s)" % (l, r)
+            return (c if isinstance(op, ast.In) else "(negb %s)" % c), "bool", b
         if isinstance(tl, tuple) and tl[0] == "list" and isinstance(R, ast.List) and not R.elts:
             if isinstance(op, ast.Eq):
                 return "(is_nil %s)" % l, "bool", b
@@ -372,6 +388,10 @@ class X:
         if isinstance(tr, tuple) and tr[0] in ("list", "set") and tr[1] == "int" and tl == "int" and isinstance(op, (ast.In, ast.NotIn)):
             c = "(zmem %s %s)" % (l, r)
             return (c if isinstance(op, ast.In) else "(negb %s)" % c), "bool", b
+        if isinstance(tl, tuple) and isinstance(tr, tuple) and tl[0] == "set" and tr[0] == "set" and unify(tl, tr) == ("set", "cond") \
+                and isinstance(op, (ast.Eq, ast.NotEq)):
+            c = "(cset_eqb %s %s)" % (l, r)
+            return (c if isinstance(op, ast.Eq) else "(negb %s)" % c), "bool", b
         if isinstance(tl, tuple) and tl == tr and tl == ("list", "int") and isinstance(op, (ast.Eq, ast.NotEq)):
             c = "(zlist_eqb %s %s)" % (l, r)
             return (c if isinstance(op, ast.Eq) else "(negb %s)" % c), "bool", b
@@ -498,17 +518,29 @@ class X:
         code = "(%s %s)" % (fn.coq, " ".join(pre + args))
         params = [p for p in fn.params if p[0] != "self"]
         for p, nm in zip(params, names):
-            if p[0] in fn.mutates and nm is not None:
+            if p[0] in fn.mutates and nm is not None and p[0] not in fn.returns_state:
                 env.setdefault("#dead", set()).add(nm)
             elif p[0] in fn.mutates:
                 pass
         if fn.pure:
             return code, fn.ret, binds
         name = self.ctx.fresh("r")
+        if fn.returns_state:
+            # the callee hands back the final state of the solver objects it was given: the caller's names are re-bound
+            back = []
+            for p, nm in zip(params, names):
+                if p[0] in fn.returns_state:
+                    if nm is None:
+                        fail(e, "a solver object passed to %s must be a plain variable" % fn.name)
+                    back.append(nm)
+                    env.get("#dead", set()).discard(nm)
+            return name, fn.ret, binds + [("'(%s, %s)" % (name, tup(back)), code, "call")]
         return name, fn.ret, binds + [(name, code, "call")]
 
     def e_Call(self, e, env):
         f = e.func
+        if isinstance(f, ast.Subscript) and isinstance(f.value, ast.Name) and f.value.id in ("frozenset", "set") and not e.args and not e.keywords:
+            return "[]", ("set", None), []
         if isinstance(f, ast.Name):
             return self.call_name(e, f.id, env)
         if isinstance(f, ast.Attribute):
@@ -557,7 +589,7 @@ class X:
             if t == ("list", "int") and td == "int":
                 return "(zmax_default %s %s)" % (c, d), "int", b + bd
             fail(e, "max of %r" % (t,))
-        if name in ("And", "Or", "Implies"):
+        if name in ("And", "Or", "Implies") and not (name == "Or" and len(e.args) == 1):
             cs, ts, b = self.simple_args(e, env, 2)
             if ts != ["form", "form"]:
                 fail(e, "%s of %r" % (name, ts))
@@ -578,6 +610,18 @@ class X:
                                                   and a[0].value.id == "self" and a[0].attr == "epistemic_state"):
                 fail(e, "%s(...) of something other than self.epistemic_state" % name)
             return "tt", ("optimizer" if name == "create_optimizer" else "tseitin"), []
+        if name == "makeOptimizer" and not e.args and not e.keywords:
+            return "zopt_new", "zopt", []
+        if name == "is_true" and len(e.args) == 1 and not e.keywords:
+            c, t, b = self.tx(e.args[0], env)
+            if t != "bool":
+                fail(e, "is_true of %r" % (t,))
+            return c, "bool", b
+        if name == "Or" and len(e.args) == 1 and not e.keywords:
+            c, t, b = self.tx(e.args[0], env)
+            if t != ("list", "form"):
+                fail(e, "Or of %r" % (t,))
+            return "(f_or_list %s)" % c, "form", b
         if name == "WCNF":
             if e.args or e.keywords:
                 fail(e, "WCNF with arguments")
@@ -621,6 +665,8 @@ class X:
                 return "(zsetset_of %s)" % cs[0], ("set", ("set", "int")), b
             if t == ("list", ("list", "int")):
                 return "(zsetset_of (map zset_of %s))" % cs[0], ("set", ("set", "int")), b
+            if t == ("list", "cond") or t == ("set", "cond"):
+                return "(cset_of %s)" % cs[0], ("set", "cond"), b
             fail(e, "%s of %r" % (name, t))
         if name == "list":
             cs, ts, b = self.simple_args(e, env, 1)
@@ -639,6 +685,22 @@ class X:
         fail(e, "call of %s" % name)
 
     def call_method(self, e, f, env):
+        # Conditional_z3.translate_from_existing(c): the same conditional over z3 terms
+        if isinstance(f.value, ast.Name) and f.value.id == "Conditional_z3" and f.attr == "translate_from_existing" \
+                and len(e.args) == 1 and not e.keywords:
+            c, t, b = self.tx(e.args[0], env)
+            if t != "cond":
+                fail(e, "translate_from_existing of %r" % (t,))
+            return c, "cond", b
+        # self.get_all_xi_i(opt, part): by contract (PyLib.z3_all_xi); the assertions it leaves on the current frame are popped by the caller
+        if isinstance(f.value, ast.Name) and f.value.id == "self" and self.ctx.fn.cls and "self" not in env \
+                and f.attr == "get_all_xi_i" and len(e.args) == 2 and not e.keywords \
+                and ("%s.get_all_xi_i" % self.ctx.fn.cls) not in self.ctx.table:
+            oc, ot, ob = self.tx(e.args[0], env)
+            pc, pt, pb = self.tx(e.args[1], env)
+            if ot != "solver" or pt != ("list", "cond"):
+                fail(e, "get_all_xi_i of %r, %r" % (ot, pt))
+            return "(z3_all_xi n %s %s)" % (oc, pc), ("set", ("set", "cond")), ob + pb
         # self.symbolize_bitvec(world): the literals of a world
         if isinstance(f.value, ast.Name) and f.value.id == "self" and self.ctx.fn.cls and "self" not in env \
                 and f.attr == "symbolize_bitvec" and len(e.args) == 1 and not e.keywords:
@@ -708,15 +770,26 @@ class X:
             if qt != "cond":
                 fail(e, "query_to_cnf of %r" % (qt,))
             return "(cnf_of_query %s)" % qc, ("tuple", (("list", "sclause"), ("list", "sclause"))), b + qb
-        if t == "solver" and f.attr == "solve" and not e.args and not e.keywords:
-            return "(s_solve n %s)" % c, "bool", b
+        if t == "zopt" and f.attr == "check" and not e.args and not e.keywords:
+            return "(o_check n %s)" % c, "bool", b
+        if t == "zopt" and f.attr == "model" and not e.args and not e.keywords:
+            return "(o_model n %s)" % c, "world", b
+        if t == "world" and f.attr == "eval" and len(e.args) == 1 and not e.keywords:
+            fc, ft, fb = self.tx(e.args[0], env)
+            if ft != "form":
+                fail(e, "eval of %r" % (ft,))
+            return "(eval %s %s)" % (c, fc), "bool", b + fb
+        if t == "solver" and f.attr in ("solve", "check") and not e.args and not e.keywords:
+            return "(s_solve n %s)" % c, "bool", b      # z3's check(): sat = True, unsat = False ("unknown" is outside the model)
         if isinstance(t, tuple) and t[0] == "set" and f.attr == "issubset":
             cs, ts, b2 = self.simple_args(e, env, 1)
             if t == ("set", "int") and ts[0] == t:
                 return "(zsubset %s %s)" % (c, cs[0]), "bool", b + b2
+            if t == ("set", "cond") and ts[0] == t:
+                return "(csubset %s %s)" % (c, cs[0]), "bool", b + b2
             fail(e, "issubset on %r" % (ts[0],))
         if t == "cond":
-            fn = self.ctx.table.get("Conditional.%s" % f.attr)
+            fn = self.ctx.table.get("%s.%s" % (self.ctx.cond_class, f.attr))
             if fn is not None:
                 c2, t2, b2 = self.call_fn(e, fn, env, selfarg=c)
                 return c2, t2, b + b2
@@ -810,7 +883,9 @@ def flatten_with(stmts, xp, env):
             out.append(s)
     return out
 
-MUTATORS = {("solver", "push", 0): "s_push", ("solver", "pop", 0): "s_pop", ("solver", "add_assertion", 1): "s_add"}
+MUTATORS = {("solver", "push", 0): "s_push", ("solver", "pop", 0): "s_pop", ("solver", "add_assertion", 1): "s_add",
+            ("solver", "add", 1): "s_add", ("zopt", "push", 0): "o_push", ("zopt", "pop", 0): "o_pop", ("zopt", "add", 1): "o_add",
+            ("zopt", "add_soft", 1): "o_add_soft"}
 
 
 class B:
@@ -847,7 +922,7 @@ class B:
             fail(e, "%s is mutated after it was stored elsewhere (aliasing)" % name)
         if (t, meth, len(e.args)) in MUTATORS:
             cs, ts, b = self.x.simple_args(e, env)
-            if meth == "add_assertion" and ts != ["form"]:
+            if meth in ("add_assertion", "add", "add_soft") and ts != ["form"]:
                 fail(e, "add_assertion of %r" % ts)
             return name, "(%s %s)" % (MUTATORS[(t, meth, len(e.args))], " ".join([v(name)] + cs)), b, t
         if isinstance(t, tuple) and t[0] == "list" and meth == "append" and len(e.args) == 1:
@@ -858,6 +933,8 @@ class B:
             return name, "(%s ++ [%s])" % (v(name), c), b, nt
         if isinstance(t, tuple) and t[0] == "set" and meth == "add" and len(e.args) == 1:
             c, te, b = self.x.tx(e.args[0], env)
+            if te == ("set", "cond"):
+                return name, "(csetset_add %s %s)" % (v(name), c), b, ("set", ("set", "cond"))
             if te != "int":
                 fail(e, "set.add of %r" % (te,))
             return name, "(zset_add %s %s)" % (v(name), c), b, ("set", "int")
@@ -979,7 +1056,7 @@ class B:
                     env[name] = nt
                     let(v(name), code)
                     continue
-                if isinstance(e, ast.ListComp) and len(e.generators) == 1 and not e.generators[0].ifs:
+                if isinstance(e, ast.ListComp) and len(e.generators) == 1:
                     g = e.generators[0]
                     it, tit, bit = self.x.tx(g.iter, env)
                     binds_in(bit)
@@ -987,6 +1064,14 @@ class B:
                         fail(s, "iteration over %r" % (tit,))
                     env2 = dict(env)
                     p = target_pat(g.target, env2, tit[1])
+                    conds_ = []
+                    for cnd in g.ifs:
+                        cc, cb = self.x.truth(cnd, env2)
+                        if cb:
+                            fail(cnd, "a filter that may raise")
+                        conds_.append(cc)
+                    if conds_:
+                        it = "(filter (fun %s => %s) %s)" % (p, " && ".join(conds_), it)
                     m = self.mutation(e.elt, env2)
                     if m is None:
                         fail(s, "comprehension used as a statement whose element is not a supported mutation")
@@ -1174,12 +1259,14 @@ class B:
             return ("(" + ", ".join(cs) + ")") if rest else fc, binds
         c, t, b = self.x.tx(s.value, env)
         fn.ret = unify(fn.ret, t)
+        if fn.returns_state:
+            c = "(%s, %s)" % (c, tup(fn.returns_state))
         return c, b
 
 
 # ------------------------------------------------------------------------------------------------ driver
 COQ_TYPES = {"bool": "bool", "int": "Z", "form": "form", "cond": "cond", "solver": "solver", "str": "unit", "none": "unit",
-             "bb": "pybase", "deadline": "unit", "wcnf": "wcnf", "sclause": "sclause", "optimizer": "unit", "tseitin": "unit", "world": "world"}
+             "bb": "pybase", "deadline": "unit", "wcnf": "wcnf", "sclause": "sclause", "optimizer": "unit", "tseitin": "unit", "world": "world", "zopt": "zopt"}
 
 
 def coq_type(t):
@@ -1284,12 +1371,14 @@ def translate_function(tree, fn, table, consts):
         if fn.ret is None:
             raise Unsupported("%s: a recursive function needs a declared return type" % fn.name)
     code, ctl, term, _ = bt.block(body, env, None)
-    code = code.replace(TAIL, "Return tt")
+    code = code.replace(TAIL, "Return tt" if not fn.returns_state else "Return (tt, %s)" % tup(fn.returns_state))
     if "@@LOOP@@" in code:
         raise Unsupported("%s: break/continue outside a loop" % fn.name)
     if fn.ret is None:
         fn.ret = "none"
     rty = "ctl %s unit unit" % coq_type(fn.ret)
+    if fn.returns_state:
+        rty = "ctl (%s * (%s)) unit unit" % (coq_type(fn.ret), " * ".join(coq_type(dict((p[0], p[1]) for p in fn.params)[x]) for x in fn.returns_state))
     if recursive:
         return ("Fixpoint %s (n : nat) (fuel : nat) %s %s {struct fuel} : %s :=\n  match fuel with 0 => NoFuel | S fuel =>\n  %s\n  end.\n"
                 % (fn.coq, state, params, rty, code)).replace(HOLE, abstract_params(fn))
@@ -1311,6 +1400,8 @@ PART_KEY = ("list", ("list", "int"))
 SCNF = ("list", "sclause")
 W_STATE = [("partition", "es_partition", PART_KEY), ("nf_cnf_dict", "es_nf_cnf_dict", ("dict", SCNF)),
            ("f_cnf_dict", "es_f_cnf_dict", ("dict", SCNF)), ("v_cnf_dict#query", "es_v_query", SCNF), ("f_cnf_dict#query", "es_f_query", SCNF)]
+
+Z3_CONSTS = {"sat": ("true", "bool", []), "unsat": ("false", "bool", [])}
 
 TARGETS = [
     dict(out="SrcCond", file="inference/conditional.py", requires=[], funcs=[
@@ -1356,6 +1447,28 @@ TARGETS = [
         Fn("z_part2ocf", "py_SystemZPreOCF_z_part2ocf", [("world", "world")],
            cls="SystemZPreOCF", ret="int", state=[("@_z_partition", "at_z_partition", PART_OBJ)]),
     ]),
+    dict(out="SrcCondZ3", file="inference/conditional_z3.py", requires=[], funcs=[
+        Fn("make_A_then_B", "py_z3_make_A_then_B", [("self", "cond")], cls="Conditional_z3"),
+        Fn("make_A_then_not_B", "py_z3_make_A_then_not_B", [("self", "cond")], cls="Conditional_z3"),
+        Fn("make_not_A_or_B", "py_z3_make_not_A_or_B", [("self", "cond")], cls="Conditional_z3"),
+    ]),
+    dict(out="SrcWZ3", file="inference/system_w_z3.py", requires=["SrcCondZ3"], cond_class="Conditional_z3", consts=Z3_CONSTS, funcs=[
+        Fn("any_subset_of_all", "py_wz3_any_subset_of_all", [("A", ("set", ("set", "cond"))), ("B", ("set", ("set", "cond")))]),
+        Fn("get_all_xi_i", "py_SystemWZ3_get_all_xi_i", [("opt", "zopt"), ("part", ("list", "cond"))],
+           cls="SystemWZ3", ret=("set", ("set", "cond")), returns_state=["opt"]),
+        Fn("_rec_inference", "py_SystemWZ3_rec_inference", [("opt", "zopt"), ("partition_index", "int"), ("query", "cond")],
+           cls="SystemWZ3", ret="bool", state=[("partition", "es_partition", PART_OBJ)], returns_state=["opt"]),
+        Fn("_inference", "py_SystemWZ3_inference", [("query", "cond"), ("weakly", "bool"), ("deadline", "none")],
+           cls="SystemWZ3", ret="bool", state=[("partition", "es_partition", PART_OBJ)]),
+    ]),
+    dict(out="SrcLexZ3", file="inference/lex_inf_z3.py", requires=["SrcCondZ3"], cond_class="Conditional_z3", consts=Z3_CONSTS, funcs=[
+        Fn("get_all_xi_i", "py_LexInfZ3_get_all_xi_i", [("opt", "zopt"), ("part", ("list", "cond"))],
+           cls="LexInfZ3", ret=("set", ("set", "cond")), returns_state=["opt"]),
+        Fn("_rec_inference", "py_LexInfZ3_rec_inference", [("opt_v", "zopt"), ("opt_f", "zopt"), ("partition_index", "int"), ("query", "cond")],
+           cls="LexInfZ3", ret="bool", state=[("partition", "es_partition", PART_OBJ)], returns_state=["opt_v", "opt_f"]),
+        Fn("_inference", "py_LexInfZ3_inference", [("query", "cond"), ("weakly", "bool"), ("deadline", "none")],
+           cls="LexInfZ3", ret="bool", state=[("partition", "es_partition", PART_OBJ)]),
+    ]),
     dict(out="SrcP", file="inference/p_entailment.py", requires=["SrcCond", "SrcCons"], funcs=[
         Fn("_inference", "py_PEntailment_inference", [("query", "cond"), ("weakly", "bool"), ("deadline", "deadline")],
            cls="PEntailment", ret="bool", state=[("belief_base", "es_belief_base", "bb"), ("smt_solver", "es_smt_solver", "str")]),
@@ -1381,7 +1494,8 @@ def generate(repo):
         try:
             src = open(path).read()
             tree = ast.parse(src)
-            consts = {}
+            consts = dict(tg.get("consts", {}))
+            Ctx.cond_class = tg.get("cond_class", "Conditional")
             for fn in tg["funcs"]:
                 table[(fn.cls + "." if fn.cls else "") + fn.name] = fn
             # recursion / forward references inside one class: declared return types make this one pass
